@@ -455,6 +455,7 @@ func writeEvidence(spec *CheckSpec, tier string, seed int64, results []*HarnessR
 			"harness": r.Name, "paths": r.Paths, "outcomes": r.Outcomes, "decisions": r.Decisions,
 			"assertion_queries": r.Asserts, "assertions_proved": r.Proved, "solver_queries": r.Solver.Queries,
 			"solver_sat": r.Solver.Sat, "solver_unsat": r.Solver.Unsat, "solver_unknown": r.Solver.Unknown,
+			"second_solver_asked": r.Fallback.Asked, "second_solver_sat": r.Fallback.Sat, "second_solver_unsat": r.Fallback.Unsat, "second_solver_time_s": r.Fallback.Time.Seconds(),
 			"solver_time_s": r.Solver.Time.Seconds(), "wall_s": r.Wall.Seconds(), "covers": cl,
 			"max_path_steps": r.MaxPathSteps, "violations": len(r.Violations),
 		})
